@@ -42,7 +42,27 @@ inductive Op where
   | updateComp (i : Nat) (n : S) (body : Fields)
   | deleteComp (i : Nat) (n : S)
   | query (i : Nat) (n : S) (P : S)
+  /-- `get_component_configuration` with any combination of `raw`, `include_default`, `is_primitive`,
+  `inject_missing_fields`; only the fully resolved variant goes through the cache -/
+  | queryF (i : Nat) (n : S) (P : S) (f : Flags)
+  /-- any accessor that hands out copies and whose answer is not modelled: `instance()`, `replicate()`,
+  `raw()`, `get_component()`, the blueprint and variable getters with `return_copy=True`, … -/
+  | read
+  /-- `get_component(comp, return_copy=False)` without a subsequent write: invalidates the component -/
+  | touchComp (i : Nat) (n : S)
+  /-- `get_platform_global_variables / get_platform_stage_variables(…, return_copy=False)` without a
+  subsequent write: clears the cache -/
+  | touchVars
   deriving Repr, Inhabited
+
+/-- the operations that are not updates: they must leave the description alone -/
+def Op.readOnly : Op → Bool
+  | .query .. => true
+  | .queryF .. => true
+  | .read => true
+  | .touchComp .. => true
+  | .touchVars => true
+  | _ => false
 
 /-- `":stage%s:%s" % (i, n)` -/
 def stageTag (i : Nat) (n : S) : S := ":stage".toList ++ natToDigits i ++ [':'] ++ n
@@ -91,6 +111,15 @@ def erasePath : List S → Val → Option Val
   | _ :: _, _ => none
 
 def unit : Except Err Val := .ok .null
+
+/-- the fully resolved query: cache hit, or resolve and remember -/
+def queryStep (fuel : Nat) (s : St) (i : Nat) (n : S) (P : S) : St × Except Err Val :=
+  match cacheGet s.cache ⟨P, i, n⟩ with
+  | some v => (s, .ok v)
+  | none =>
+    match resolve s.desc P i n false fuel with
+    | .ok v => (⟨s.desc, (⟨P, i, n⟩, v) :: s.cache⟩, .ok v)
+    | .error e => (s, .error e)
 
 /-- one call of the interface; the answer of a mutator is `ok null` or the error it raises -/
 def step (fuel : Nat) (s : St) : Op → St × Except Err Val
@@ -175,13 +204,15 @@ def step (fuel : Nat) (s : St) : Op → St × Except Err Val
     match findComp s.desc.comps i n with
     | none => (s, .error .componentUnknown)
     | some _ => (⟨setComps s.desc (delComp i n s.desc.comps), invalidate i n s.cache⟩, unit)
-  | .query i n P =>
-    match cacheGet s.cache ⟨P, i, n⟩ with
-    | some v => (s, .ok v)
-    | none =>
-      match resolve s.desc P i n false fuel with
-      | .ok v => (⟨s.desc, (⟨P, i, n⟩, v) :: s.cache⟩, .ok v)
-      | .error e => (s, .error e)
+  | .query i n P => queryStep fuel s i n P
+  | .queryF i n P f =>
+    if f.full then queryStep fuel s i n P else (s, resolveF s.desc P i n f fuel)
+  | .read => (s, unit)
+  | .touchComp i n =>
+    match findComp s.desc.comps i n with
+    | none => (s, .error .componentUnknown)
+    | some _ => (⟨s.desc, invalidate i n s.cache⟩, unit)
+  | .touchVars => (⟨s.desc, []⟩, unit)
 
 /-- run a history; answers in order -/
 def run (fuel : Nat) : St → List Op → St × List (Except Err Val)
